@@ -437,6 +437,7 @@ func pngTruthful(f *genFile, mut []byte, reg region, o map[string]any) (bool, st
 func init() {
 	register(&section{
 		name: "png", fqfmt: "png", prog: pngProg,
+		fprog:    `def fobs: {err: errs, validity: validity, chunks: [.chunks[]? | {unc: (.uncompressed | if type == "null" then null else {bytes: tb} end)}]};`,
 		newSpec:  func() any { return &pngSpec{} },
 		enum:     pngEnum,
 		build:    pngBuild,
